@@ -507,14 +507,20 @@ def run_fuzz_stage(prop, mod, tier, seed, new):
             out, _ = pr.communicate()
             execs = cov = ft = cases = nontriv = known_n = 0
             for ln in out.splitlines():
-                if ln.startswith("stat::number_of_executed_units:"):
+                if ln.startswith("stat::number_of_executed_units:") and ln.split()[-1].isdigit():
                     execs = int(ln.split()[-1])
                 elif " cov: " in ln and " ft: " in ln:
-                    parts = ln.split()
-                    cov, ft = int(parts[parts.index("cov:") + 1]), int(parts[parts.index("ft:") + 1])
+                    import re
+
+                    m1, m2 = re.search(r" cov: (\d+)", ln), re.search(r" ft: (\d+)", ln)
+                    if m1 and m2:
+                        cov, ft = int(m1.group(1)), int(m2.group(1))
                 elif ln.startswith("FUZZ-STATS"):
-                    kv = dict(x.split("=") for x in ln.split()[1:])
-                    cases, nontriv, known_n = int(kv["cases"]), int(kv["nontrivial"]), int(kv["known"])
+                    try:
+                        kv = dict(x.split("=") for x in ln.split()[1:])
+                        cases, nontriv, known_n = int(kv["cases"]), int(kv["nontrivial"]), int(kv["known"])
+                    except (ValueError, KeyError):
+                        pass
                 elif ln.startswith("FUZZ-VIOLATION"):
                     sig = ln.split("signature=")[1].split(" replay=")[0]
                     rel = ln.split(" replay=")[1].split(" detail=")[0]
